@@ -34,13 +34,6 @@ Proof.
   replace (code m =? 0) with false by lia. destruct (is_response (code m)); reflexivity.
 Qed.
 
-Lemma check_critical_none : forall os c, no_critical os = true -> check_critical_options c os = (c, [], true).
-Proof.
-  induction os as [|[n v] r IH]; intros c H; [reflexivity|].
-  cbn in H. apply andb_prop in H as [H1 H2]. cbn [check_critical_options].
-  destruct (is_critical n); [discriminate|]. apply IH. exact H2.
-Qed.
-
 Lemma serialize_pong tok : blen tok <= 8 ->
   serialize {| code := PONG; token := tok; opts := []; payload := [] |} = Ok ([blen tok; PONG] ++ tok).
 Proof.
@@ -50,27 +43,28 @@ Proof.
   cbn [app]. rewrite app_nil_r. reflexivity.
 Qed.
 
-Lemma ping_pong c m : code m = PING -> no_critical (opts m) = true -> blen (token m) <= 8 ->
+Lemma ping_pong c m : code m = PING -> has_critical (opts m) = false -> blen (token m) <= 8 ->
   process_signaling c m = (c, [Write ([blen (token m); PONG] ++ token m)], SOk).
 Proof.
   intros Hc Hn Ht. unfold process_signaling. rewrite Hc. change (PING =? CSM) with false. cbv iota.
   change ((PING =? PING) || (PING =? PONG) || (PING =? RELEASE) || (PING =? ABORT)) with true. cbv iota.
-  rewrite check_critical_none by exact Hn. cbn [negb]. change (PING =? PING) with true. cbv iota.
+  rewrite Hn. change (PING =? PING) with true. cbv iota.
   unfold send_message. rewrite serialize_pong by exact Ht. reflexivity.
 Qed.
 
-Lemma release_abort_close c m : code m = RELEASE \/ code m = ABORT -> no_critical (opts m) = true ->
+Lemma release_abort_close c m : code m = RELEASE \/ code m = ABORT -> has_critical (opts m) = false ->
   handle_message c m =
-  (set_closed c, [DispatchError (if code m =? RELEASE then PeerReleased else PeerAborted); Close], Continue).
+  (set_closed c, [DispatchError (if code m =? RELEASE then PeerReleased else PeerAborted); Close], Return).
 Proof.
   intros Hc Hn. unfold handle_message, process_signaling.
-  destruct Hc as [Hc|Hc]; rewrite Hc; cbn -[check_critical_options]; rewrite check_critical_none by exact Hn; reflexivity.
+  destruct Hc as [Hc|Hc]; rewrite Hc; cbn -[has_critical]; rewrite Hn; reflexivity.
 Qed.
 
-Lemma pong_ignored c m : code m = PONG -> no_critical (opts m) = true -> handle_message c m = (c, [], Continue).
+Lemma pong_ignored c m : code m = PONG -> has_critical (opts m) = false ->
+  handle_message c m = (c, [], if closed c then Return else Continue).
 Proof.
   intros Hc Hn. unfold handle_message, process_signaling. rewrite Hc.
-  cbn -[check_critical_options]. rewrite check_critical_none by exact Hn. reflexivity.
+  cbn -[has_critical]. rewrite Hn. reflexivity.
 Qed.
 
 (* ---------------------------------------------------------------- Abort + close on the error conditions *)
@@ -104,17 +98,26 @@ Proof.
   replace (t >? 8) with true by lia. reflexivity.
 Qed.
 
-(* unknown critical option in Ping / Pong / Release / Abort *)
-Lemma check_critical_aborts : forall os c n v, In (n, v) os -> is_critical n = true ->
-  exists pre post, snd (fst (check_critical_options c os)) = pre ++ Write (abort_frame txt_unknown_critical_option) :: Close :: post.
+(* unknown critical option in Ping / Pong / Release / Abort: Abort, close, and nothing else — the message's
+   own action (Pong, release handling) does not happen and the method returns *)
+Lemma critical_option_aborts c m :
+  code m = PING \/ code m = PONG \/ code m = RELEASE \/ code m = ABORT -> has_critical (opts m) = true ->
+  handle_message c m = (set_closed c, [Write (abort_frame txt_unknown_critical_option); Close], Return).
 Proof.
-  induction os as [|[n0 v0] r IH]; intros c n v Hin Hcrit; [destruct Hin|].
-  cbn [check_critical_options].
-  destruct (is_critical n0) eqn:Hc0.
-  - rewrite abort_none by apply serialize_abort_texts.
-    destruct (check_critical_options (set_closed c) r) as [[c2 o2] ok2]. cbn [fst snd].
-    exists [], o2. reflexivity.
-  - destruct Hin as [Heq|Hin]; [inv Heq; congruence|]. apply (IH c n v Hin Hcrit).
+  intros Hc Hn. unfold handle_message, process_signaling.
+  destruct Hc as [Hc|[Hc|[Hc|Hc]]]; rewrite Hc; cbn -[has_critical abort]; rewrite Hn;
+    rewrite abort_none by apply serialize_abort_texts; reflexivity.
+Qed.
+
+Lemma unknown_signalling_code_aborts c m : is_signalling (code m) = true ->
+  code m <> CSM -> code m <> PING -> code m <> PONG -> code m <> RELEASE -> code m <> ABORT ->
+  handle_message c m = (set_closed c, [Write (abort_frame txt_unknown_signalling_code); Close], Return).
+Proof.
+  intros Hs H1 H2 H3 H4 H5. unfold handle_message, process_signaling. rewrite Hs.
+  replace (code m =? CSM) with false by (unfold CSM in *; lia).
+  replace ((code m =? PING) || (code m =? PONG) || (code m =? RELEASE) || (code m =? ABORT)) with false
+    by (unfold PING, PONG, RELEASE, ABORT in *; lia).
+  rewrite abort_none by apply serialize_abort_texts. reflexivity.
 Qed.
 
 (* ---------------------------------------------------------------- statements in the form used by Props/C15.v *)
@@ -168,7 +171,7 @@ Qed.
 
 Lemma csm_critical_aborts : forall os c st n v, In (n, v) os -> is_critical n = true ->
   (forall n' v', In (n', v') os -> 0 <= n' < 2 ^ 64) ->
-  exists pre post b n1, snd (fst (process_csm_options c st os)) = pre ++ Write b :: Close :: post /\
+  exists st' b n1, process_csm_options c st os = (set_closed c, st', [Write b; Close], true) /\
     is_critical n1 = true /\ serialize (abort_msg txt_option_not_supported (Some n1)) = Ok b.
 Proof.
   induction os as [|[n0 v0] r IH]; intros c st n v Hin Hcrit Hb; [destruct Hin|].
@@ -178,12 +181,26 @@ Proof.
   destruct (is_critical n0) eqn:Hc0.
   - destruct (Hcn n0 Hc0) as [-> ->].
     destruct (serialize_abort_bad n0 (Hb n0 v0 (or_introl eq_refl))) as [b Hser].
-    unfold abort. rewrite Hser.
-    destruct (process_csm_options (set_closed c) st r) as [[[c2 s2] o2] ok2]. cbn [fst snd].
-    exists [], o2, b, n0. repeat split; auto.
+    unfold abort. rewrite Hser. exists st, b, n0. repeat split; auto.
   - assert (Hin' : In (n, v) r) by (destruct Hin as [Heq|Hin]; [inv Heq; congruence|exact Hin]).
     assert (Hb' : forall n' v', In (n', v') r -> 0 <= n' < 2 ^ 64) by (intros; eapply Hb; right; eauto).
     destruct (n0 =? 2); [apply (IH c _ n v Hin' Hcrit Hb')|].
     destruct (n0 =? 4); [apply (IH c _ n v Hin' Hcrit Hb')|].
     apply (IH c st n v Hin' Hcrit Hb').
+Qed.
+
+(* a CSM with an unknown critical option: Abort carrying Bad-CSM-Option, close, return; the CSM has been
+   received (the settings are set), but nothing after it is processed *)
+Lemma csm_critical_option_aborts c m n v : code m = CSM -> In (n, v) (opts m) -> is_critical n = true ->
+  (forall n' v', In (n', v') (opts m) -> 0 <= n' < 2 ^ 64) ->
+  exists c1 b n1, handle_message c m = (c1, [Write b; Close], Return) /\ closed c1 = true /\
+    remote_settings c1 <> None /\ is_critical n1 = true /\
+    serialize (abort_msg txt_option_not_supported (Some n1)) = Ok b.
+Proof.
+  intros Hc Hin Hcrit Hb. unfold handle_message, process_signaling. rewrite Hc.
+  change (is_signalling CSM) with true. change (CSM =? CSM) with true. cbv iota.
+  destruct (csm_critical_aborts (opts m) c
+    match remote_settings c with Some s => s | None => {| max_message_size := None; block_wise_transfer := false |} end
+    n v Hin Hcrit Hb) as (st' & b & n1 & Hp & Hn1 & Hser).
+  rewrite Hp. exists (set_settings (set_closed c) (Some st')), b, n1. cbn. repeat split; auto. discriminate.
 Qed.
